@@ -84,5 +84,31 @@ inline std::string env_str(const char* name, const char* dflt) {
     return v && *v ? std::string(v) : std::string(dflt);
 }
 
+// Independent Gregorian arithmetic (days-from-civil / civil-from-days): expected dates are never
+// computed with the library's own Date::add_days, so that a defect there cannot hide itself.
+inline long days_from_civil(long y, unsigned m, unsigned d) {
+    y -= m <= 2;
+    const long era = (y >= 0 ? y : y - 399) / 400;
+    const unsigned yoe = (unsigned)(y - era * 400);
+    const unsigned doy = (153 * (m + (m > 2 ? -3 : 9)) + 2) / 5 + d - 1;
+    const unsigned doe = yoe * 365 + yoe / 4 - yoe / 100 + doy;
+    return era * 146097 + (long)doe - 719468;
+}
+inline void civil_from_days(long z, int& y, int& m, int& d) {
+    z += 719468;
+    const long era = (z >= 0 ? z : z - 146096) / 146097;
+    const unsigned doe = (unsigned)(z - era * 146097);
+    const unsigned yoe = (doe - doe / 1460 + doe / 36524 - doe / 146096) / 365;
+    const long yy = (long)yoe + era * 400;
+    const unsigned doy = doe - (365 * yoe + yoe / 4 - yoe / 100);
+    const unsigned mp = (5 * doy + 2) / 153;
+    d = (int)(doy - (153 * mp + 2) / 5 + 1);
+    m = (int)(mp < 10 ? mp + 3 : mp - 9);
+    y = (int)(yy + (m <= 2));
+}
+inline void civil_add_days(int y, int m, int d, long n, int& y2, int& m2, int& d2) {
+    civil_from_days(days_from_civil(y, (unsigned)m, (unsigned)d) + n, y2, m2, d2);
+}
+
 }  // namespace verif
 #endif
